@@ -336,6 +336,9 @@ def alphabet(u):
             if kind in ("set", "list"):
                 for op in ROPS:
                     ops.append([op, kind, c])
+    # the receiver as its own operand (s -= s, s ^= s, s | s, s <= s ...)
+    for op in BINOPS + IOPS + CMPOPS:
+        ops.append([op, "self", []])
     if u.typed:
         for lab, _ in u.wrong:
             for c in ([["w", lab]], [list(u.specs[0]), ["w", lab]]):
@@ -363,7 +366,9 @@ class Raised:
 LAST = {"operand": None}
 
 
-def mk_operand(u, pool, kind, content):
+def mk_operand(u, pool, kind, content, receiver=None):
+    if kind == "self":
+        return receiver, list(receiver)
     # operand members are EQUAL COPIES of the pool objects, never the very objects the receiver holds: whether two sets
     # "share an item" must not hinge on object identity (spec-class instances compare by value but hash by identity)
     objs = [(u.wrong_obj(x[1]) if x[0] == "w" else copy.deepcopy(pool[(x[0], x[1])])) for x in content]
@@ -420,7 +425,7 @@ def apply_impl(s, op, u, pool):
             return s.pop(), s
         if name == "clear":
             return s.clear(), s
-        operand, _ = mk_operand(u, pool, op[1], op[2])
+        operand, _ = mk_operand(u, pool, op[1], op[2], receiver=s)
         LAST["operand"] = operand
         if name in BINOPS:
             return OPFN[name](s, operand), s
@@ -515,7 +520,7 @@ def apply_model(m, op, u, pool):
     kind, content = op[1], op[2]
     if any(x[0] == "w" for x in content):
         return SKIP, m  # wrong-typed operand members: only 'never admitted' and coherence are demanded
-    objs = [pool[(x[0], x[1])] for x in content]
+    objs = [pool[(x[0], x[1])] for x in content] if kind != "self" else list(m.values())
     if u.typed and any(not u.conforms(o) for o in objs):
         return SKIP, m  # operand / result items are not admissible for this parameterisation
     bkeys = [u.key_of(o) for o in objs]
@@ -571,6 +576,8 @@ def apply_model(m, op, u, pool):
     if name in ("eq", "ne"):
         if A_keys != B_keys:
             return (name == "ne"), m
+        if kind == "set" and len(set(objs)) != len(m):
+            return (name == "ne"), m  # however items are matched up: sets of different sizes are never equal
         if conflict:
             return SKIP, m  # equal key sets, different payloads: 'algebra on keys' vs 'mapping' disagree
         return (name == "eq"), m
